@@ -30,6 +30,7 @@ REQUIRED_THEOREMS = [
     "TapkeeVerif.Dijkstra.isShortestPathMatrix_sound",
     "TapkeeVerif.Dijkstra.fib_build_refines_indexed",
     "TapkeeVerif.Dijkstra.fib_build_exact",
+    "TapkeeVerif.Dijkstra.fib_build_total",
     "TapkeeVerif.IsomapPre.center_eq_JAJ",
     "TapkeeVerif.IsomapPre.isomap_is_cmds",
     "TapkeeVerif.IsomapPre.isomapPre_symm",
